@@ -51,6 +51,22 @@ func verif_Proxy_Close(p Proxy) { p.Close() }
 //verif:preserves H.client.proxy.Wrapper. H.client.proxy.Manager. ChClosed@H.client.proxy.Wrapper. map_LstringR_Pclient.proxy.Wrapper
 func verif_Proxy_InWorkConn(p Proxy, c net.Conn, m *msg.StartWorkConn) { p.InWorkConn(c, m) }
 
+// The concrete proxy comes from the factory registered for the configuration
+// type: unknown code that builds a new object (assumed frame as above).
+//
+//verif:dyncall ~/client/proxy.NewProxy 1
+func verifSpec_factory(base *BaseProxy, cfg v1.ProxyConfigurer) Proxy {
+	return verif.Any[Proxy]()
+}
+
+//verif:contract (~/client/proxy.Proxy).SetInWorkConnCallback
+//verif:trusted
+//verif:modifies *
+//verif:preserves H.client.proxy.Wrapper. H.client.proxy.Manager. ChClosed@H.client.proxy.Wrapper. map_LstringR_Pclient.proxy.Wrapper
+func verif_Proxy_SetInWorkConnCallback(p Proxy, cb func(*v1.ProxyBaseConfig, net.Conn, *msg.StartWorkConn) bool) {
+	p.SetInWorkConnCallback(cb)
+}
+
 const (
 	evHandler = "fieldfn:H.client.proxy.Wrapper.handler"
 	evRun     = "Proxy).Run"
@@ -135,6 +151,9 @@ func verif_InWorkConn(pw *Wrapper, workConn net.Conn, m *msg.StartWorkConn) {
 //verif:pure
 func verifHeadPhase(pw *Wrapper) string { return pw.Phase }
 
+//verif:pure
+func verifHeadHealth(pw *Wrapper) uint32 { return pw.health }
+
 // One completed iteration of the status worker (arbitrary iteration, loop cut
 // at its head; phase0 is the phase at the start). A registration is sent only
 // while healthy and only from "new", "check failed", or a timed-out "wait
@@ -143,9 +162,9 @@ func verifHeadPhase(pw *Wrapper) string { return pw.Phase }
 // "check failed". In every other case the phase stays and nothing is sent - in
 // particular nothing is ever sent for "closed" or "running".
 //
-//verif:loopbody (*~/client/proxy.Wrapper).checkWorker 1 check=verifWorkerStep args=pw head=verifHeadPhase
-func verifWorkerStep(pw *Wrapper, phase0 string) bool {
-	healthy := verif.IterRet[uint32]("atomic.LoadUint32", 0) == 0
+//verif:loopbody (*~/client/proxy.Wrapper).checkWorker 1 check=verifWorkerStep args=pw head=verifHeadPhase,verifHeadHealth
+func verifWorkerStep(pw *Wrapper, phase0 string, health0 uint32) bool {
+	healthy := health0 == 0
 	sent := verif.CalledInIter(evHandler)
 	if !sent {
 		return pw.Phase == phase0 && (healthy || (phase0 != ProxyPhaseRunning && phase0 != ProxyPhaseWaitStart)) &&
@@ -193,6 +212,25 @@ func verif_statusFailedCallback(pw *Wrapper) {
 }
 
 // ---------------------------------------------------------------- the manager
+
+// Monitor invariants of the manager (assumed when mu is taken, proved when it
+// is released): every registered wrapper is a live one - its two channels exist
+// and are open, i.e. it has not been stopped - and two names never share a
+// wrapper or a channel. Stop closes the channels, so this is what makes
+// "stopped at most once" hold for every Stop the manager issues.
+//
+//verif:invariant Manager mu
+func (pm *Manager) verifInvLive(name string) bool {
+	w, ok := pm.proxies[name]
+	return pm.proxies != nil && (!ok || (w != nil && w.closeCh != nil && w.healthNotifyCh != nil && !verif.Closed(w.closeCh) && !verif.Closed(w.healthNotifyCh)))
+}
+
+//verif:invariant Manager mu
+func (pm *Manager) verifInvDistinct(n1, n2 string) bool {
+	w1, ok1 := pm.proxies[n1]
+	w2, ok2 := pm.proxies[n2]
+	return n1 == n2 || !ok1 || !ok2 || (w1 != w2 && w1.closeCh != w2.closeCh && w1.healthNotifyCh != w2.healthNotifyCh)
+}
 
 // HandleWorkConn: "the client dispatches on the proxy name": the connection
 // goes to the wrapper registered under exactly that name, or is closed.
